@@ -504,9 +504,80 @@ pub fn body(t: &str, a: &Arch, l: Layout, fi: usize, ext: &Ext) -> Vec<Term<pc::
     let next = (fi + 1) % l.nfun;
     let next_addr = format!("{:08x}", l.fun(next));
     let next_tid = tid_at(&format!("sub_{next_addr}"), &next_addr);
+    let last_addr = format!("{:08x}", l.fun(l.nfun - 1));
+    let last_tid = tid_at(&format!("sub_{last_addr}"), &last_addr);
     let mut f = Fb::new(a, l, base);
     let w = a.ptr;
     match t {
+        // ---- scenario templates: several callers of the LAST function of the project, differing in what they pass
+        "pass_stack" => {
+            f.begin(0);
+            f.prologue();
+            f.lea_sp(f.p(0), 8); // address of a local buffer (0x18 bytes below the saved frame pointer)
+            f.call(last_tid.clone(), Some(1));
+            f.begin(1);
+            f.epilogue();
+            f.ret();
+        }
+        "pass_unknown" => {
+            f.begin(0);
+            f.prologue();
+            f.op(f.p(0), E::INT_MULT, f.p(1), f.p(2)); // a computed value the analysis knows nothing about
+            f.call(last_tid.clone(), Some(1));
+            f.begin(1);
+            f.epilogue();
+            f.ret();
+        }
+        "pass_global" => {
+            f.begin(0);
+            f.prologue();
+            f.mov(f.p(0), v_ram(l.d_ptr(), w)); // a pointer read from a writeable global
+            f.call(last_tid.clone(), Some(1));
+            f.begin(1);
+            f.epilogue();
+            f.ret();
+        }
+        "pass_ret" => {
+            f.begin(0);
+            f.prologue();
+            f.call(ext.tid("rand"), Some(1));
+            f.begin(1);
+            f.mov(f.p(0), f.ret_reg()); // the result of an extern function without parameters
+            f.call(last_tid.clone(), Some(2));
+            f.begin(2);
+            f.epilogue();
+            f.ret();
+        }
+        "pass_const" => {
+            f.begin(0);
+            f.prologue();
+            f.mov(f.p(0), f.c(16));
+            f.call(last_tid.clone(), Some(1));
+            f.begin(1);
+            f.epilogue();
+            f.ret();
+        }
+        "pass_heap" => {
+            f.begin(0);
+            f.prologue();
+            f.mov(f.p(0), f.c(16));
+            f.call(ext.tid("alloc"), Some(1));
+            f.begin(1);
+            f.mov(f.p(0), f.ret_reg());
+            f.call(last_tid.clone(), Some(2));
+            f.begin(2);
+            f.epilogue();
+            f.ret();
+        }
+        "sink_write" => {
+            // accesses relative to the pointer parameter: whether they are in bounds depends on the callers' objects
+            f.begin(0);
+            f.op(f.t("$U4100"), E::INT_ADD, f.p(0), f.c(0x30));
+            f.store(f.t("$U4100"), f.c(0));
+            f.op(f.t("$U4180"), E::INT_ADD, f.p(0), f.c(0x38));
+            f.load(f.ret_reg(), f.t("$U4180"));
+            f.ret();
+        }
         "straight" => {
             f.begin(0);
             f.prologue();
@@ -1226,6 +1297,29 @@ impl InputSpec {
     }
 }
 
+/// Hand-composed multi-function projects (both tiers of C21 and C23): several callers of one
+/// callee that differ in what they pass (stack buffer / unknown value / constant / heap object),
+/// so that interprocedural merges over the callsites matter; and one project in which most checks fire.
+pub const SCENARIOS: [&[&str]; 8] = [
+    &["pass_stack", "pass_unknown", "sink_write"],
+    &["pass_unknown", "pass_stack", "sink_write"],
+    &["pass_stack", "pass_ret", "sink_write"],
+    &["pass_stack", "pass_unknown", "pass_const", "sink_write"],
+    &["pass_heap", "pass_unknown", "sink_write"],
+    &["pass_ret", "pass_heap", "pass_global", "sink_write"],
+    &["pass_unknown", "pass_heap", "pass_const", "pass_stack", "pass_ret", "sink_write"],
+    &["heap", "heap_checked", "fmt", "sys", "toctou", "unchecked", "null", "stack", "subreg"],
+];
+pub fn scenario_family() -> Vec<InputSpec> {
+    let mut out = Vec::new();
+    for sc in SCENARIOS {
+        out.push(InputSpec { arch: "x64", templates: sc.to_vec(), ext: ExtVariant::Full, elf: ElfKind::DynSections, all_selections: false });
+        out.push(InputSpec { arch: "x64", templates: sc.to_vec(), ext: ExtVariant::Kernel, elf: ElfKind::RelLkm, all_selections: false });
+        out.push(InputSpec { arch: "arm", templates: sc.to_vec(), ext: ExtVariant::Full, elf: ElfKind::DynMin, all_selections: false });
+    }
+    out
+}
+
 /// The C21 input family of a tier, in a fixed order.
 ///
 /// quick (about 4 000 CLI runs): every single template x 4 extern tables x 4 x86_64 ELF kinds + ARM-style
@@ -1276,6 +1370,7 @@ pub fn input_family(thorough: bool) -> Vec<InputSpec> {
             }
         }
     }
+    out.extend(scenario_family());
     out
 }
 
@@ -1304,6 +1399,9 @@ pub fn seed_family(thorough: bool) -> Vec<(InputSpec, Vec<usize>, u64)> {
         for s in input_family(false).into_iter().filter(|s| s.templates.len() == 2) {
             out.push((s, vec![1], 2));
         }
+    }
+    for s in scenario_family() {
+        out.push((s, vec![0, 1], 1));
     }
     out
 }
